@@ -4,6 +4,9 @@ import (
 	"bytes"
 	"fmt"
 	"io"
+	"os"
+	"path/filepath"
+	"runtime/debug"
 
 	"golang.org/x/image/ccitt"
 	"seehuhn.de/go/pdf"
@@ -196,7 +199,8 @@ func replayForeignPredict(input string) (bool, string) {
 }
 
 // oracleForeignCCITT: golang.org/x/image/ccitt decodes the library's output
-// (Group 4: K<0; Group 3 one-dimensional with EOL: K=0, EndOfLine).
+// (Group 4: K<0, with and without EncodedByteAlign; Group 3 one-dimensional with EOL codes: K=0,
+// EndOfLine; both with and without the end-of-block pattern).
 func oracleForeignCCITT(p fbCC, data []byte) (bool, string) {
 	enc, err, pan := fbEncode(p.filter(), pdf.V1_7, data, NewRand(1), 0)
 	if pan != "" || err != nil {
@@ -263,28 +267,177 @@ func runFBForeign(c *Ctx) {
 	}
 	for i := 0; i < n; i++ {
 		p := fbGenCC(r)
-		p.ignEOB = false
+		p.ignEOB = r.P(1, 3) // streams without EOFB / RTC (former class ccitt-noeob)
+		p.align = r.P(1, 3)  // EncodedByteAlign (former class ccitt-bytealign)
 		switch r.Intn(3) {
 		case 0:
-			p.k, p.eol, p.align = 0, true, false // EncodedByteAlign: see notes/FB.md (layout conventions differ)
+			// x/image/ccitt's Group3 wants an EOL code before every row; with EOL codes the two
+			// implementations put the fill bits of EncodedByteAlign at different places (before /
+			// after the EOL, see notes/FB.md), so Group 3 is compared without alignment
+			p.k, p.eol, p.align = 0, true, false
 		default:
 			if p.k >= 0 {
 				p.k = -1
 			}
-			p.align = false
 		}
 		nrows := 1 + r.Intn(5)
 		p.rows = Pick(r, []int{0, nrows})
 		data := fbGenCCData(r, p, nrows)
-		if fbCCClass(p, data) != "" || !fbCCAdmissible(p, data) {
-			c.Stat("foreign_ccitt_skipped_known_class")
+		if !fbCCAdmissible(p, data) {
+			c.Stat("foreign_ccitt_skipped_inadmissible")
 			continue
 		}
 		ok, desc := oracleForeignCCITT(p, data)
 		c.Case(fmt.Sprintf("fc:%s:%x", p, data), true)
 		c.Stat(fmt.Sprintf("foreign_ccitt_k%d", min(max(p.k, -1), 1)))
+		if cl := fbCCClass(p, data); cl != "" {
+			c.Stat("foreign_ccitt_class_" + cl)
+		}
 		if !ok {
 			c.Violate("fb-foreign-ccitt", "foreign-ccitt", fmt.Sprintf("CCITTFax %v: %s", p, desc), fmt.Sprintf("%s %s", p, hexWire(data)))
 		}
 	}
+	runFBXImageSamples(c)
+}
+
+// ---- files of an independent encoder: the test data of golang.org/x/image/ccitt ----
+
+// fbXImageTestdata: the testdata directory of the x/image module in the module cache, or "".
+func fbXImageTestdata() string {
+	version := ""
+	if bi, ok := debug.ReadBuildInfo(); ok {
+		for _, d := range bi.Deps {
+			if d.Path == "golang.org/x/image" {
+				version = d.Version
+			}
+		}
+	}
+	if version == "" {
+		return ""
+	}
+	var roots []string
+	if v := os.Getenv("GOMODCACHE"); v != "" {
+		roots = append(roots, v)
+	}
+	if v := os.Getenv("GOPATH"); v != "" {
+		for _, g := range filepath.SplitList(v) {
+			roots = append(roots, filepath.Join(g, "pkg", "mod"))
+		}
+	}
+	if h, err := os.UserHomeDir(); err == nil {
+		roots = append(roots, filepath.Join(h, "go", "pkg", "mod"))
+	}
+	for _, root := range roots {
+		dir := filepath.Join(root, "golang.org", "x", "image@"+version, "ccitt", "testdata")
+		if st, err := os.Stat(dir); err == nil && st.IsDir() {
+			return dir
+		}
+	}
+	return ""
+}
+
+type fbXSample struct {
+	file                 string
+	group4, align, trunc bool
+}
+
+// the 153x55 gopher, written by an encoder that is unrelated to the library
+var fbXSamples = []fbXSample{
+	{"bw-gopher.ccitt_group4", true, false, false},
+	{"bw-gopher-inverted.ccitt_group4", true, false, false},
+	{"bw-gopher-aligned.ccitt_group4", true, true, false},
+	{"bw-gopher-inverted-aligned.ccitt_group4", true, true, false},
+	{"bw-gopher-truncated0.ccitt_group4", true, false, true},
+	{"bw-gopher-truncated1.ccitt_group4", true, false, true},
+	{"bw-gopher.ccitt_group3", false, false, false},
+	{"bw-gopher-inverted.ccitt_group3", false, false, false},
+	{"bw-gopher-truncated0.ccitt_group3", false, false, true},
+	{"bw-gopher-truncated1.ccitt_group3", false, false, true},
+	// bw-gopher-aligned.ccitt_group3 and -inverted-aligned: EOL codes AND fill bits, [EOL][fill][data];
+	// the library expects [data][fill][EOL] (interoperability ambiguity, see notes/FB.md): not compared
+}
+
+// oracleXImageSample: the library decodes the sample to what x/image/ccitt decodes it to.
+func oracleXImageSample(sm fbXSample, body []byte, blackIs1, ignEOB bool) (ok bool, detail string, p fbCC) {
+	const w, h = 153, 55
+	sf := ccitt.Group4
+	p = fbCC{cols: w, k: -1, rows: h, align: sm.align, blackIs1: blackIs1, ignEOB: ignEOB}
+	if !sm.group4 {
+		sf = ccitt.Group3
+		p.k, p.eol = 0, true
+	}
+	want, err := io.ReadAll(ccitt.NewReader(bytes.NewReader(body), ccitt.MSB, sf, w, h, &ccitt.Options{Invert: blackIs1, Align: sm.align}))
+	if err != nil || len(want) != h*((w+7)/8) {
+		return true, fmt.Sprintf("x/image/ccitt itself does not read %s (%v, %d bytes): not compared", sm.file, err, len(want)), p
+	}
+	got, err, pan := fbDecode(p.filter(), pdf.V1_7, body, NewRand(1), 0, 0)
+	if pan != "" {
+		return false, "the library panics: " + pan, p
+	}
+	if err != nil || !bytes.Equal(got, want) {
+		same := 0
+		for same < len(got) && same < len(want) && got[same] == want[same] {
+			same++
+		}
+		return false, fmt.Sprintf("%s (%s): the library returns %d bytes (err=%v), the first %d equal to the %d bytes x/image/ccitt decodes", sm.file, p, len(got), err, same, len(want)), p
+	}
+	return true, "", p
+}
+
+// replay input: "<sample index> <blackIs1 0|1> <ignEOB 0|1>"
+func replayXImageSample(input string) (bool, string) {
+	a := fbFields(input)
+	dir := fbXImageTestdata()
+	if len(a) != 3 || dir == "" || fbAtoi(a[0]) < 0 || fbAtoi(a[0]) >= len(fbXSamples) {
+		return true, "bad replay input or samples unavailable"
+	}
+	sm := fbXSamples[fbAtoi(a[0])]
+	body, err := os.ReadFile(filepath.Join(dir, sm.file))
+	if err != nil {
+		return true, err.Error()
+	}
+	ok, d, _ := oracleXImageSample(sm, body, a[1] == "1", a[2] == "1")
+	return ok, d
+}
+
+func runFBXImageSamples(c *Ctx) {
+	dir := fbXImageTestdata()
+	if dir == "" {
+		c.Stat("ximage_samples_unavailable")
+		c.Sample("x/image/ccitt testdata not found in the module cache: independent-encoder samples not run")
+		return
+	}
+	for i, sm := range fbXSamples {
+		body, err := os.ReadFile(filepath.Join(dir, sm.file))
+		if err != nil {
+			c.Stat("ximage_samples_unavailable")
+			continue
+		}
+		for _, b1 := range []bool{false, true} {
+			for _, ign := range []bool{false, true} {
+				ok, detail, p := oracleXImageSample(sm, body, b1, ign)
+				c.Case(fmt.Sprintf("xs:%s:%v:%v", sm.file, b1, ign), true)
+				c.Stat("ximage_sample")
+				if !ok {
+					c.Violate("fb-foreign-sample", "foreign-ccitt-sample", detail, fmt.Sprintf("%d %d %d", i, fbB2i(b1), fbB2i(ign)))
+				} else if detail != "" {
+					c.Stat("ximage_sample_not_compared")
+				}
+				if !b1 && !ign { // the model reader on the same file
+					line, _, _ := fbCCDecodeLine(p, body, c.R, 0, 0)
+					c.Emit(fmt.Sprintf("FB cdec %s %s", p, hexWire(body)), line)
+				}
+			}
+		}
+		if i < 2 {
+			c.Sample(fmt.Sprintf("x/image sample %s (%d bytes)", sm.file, len(body)))
+		}
+	}
+}
+
+func fbB2i(b bool) int {
+	if b {
+		return 1
+	}
+	return 0
 }
